@@ -94,13 +94,15 @@ def run_case(c):
             if np.abs(dD).max() > 1e-6 * np.abs(D(q)).max():
                 nontrivial = True
             for j in range(3):
-                errs = []
+                errs, fds = [], []
                 for h in (1e-4, 5e-5):
                     dq = L @ (np.eye(3)[j] * h)
                     fd = (D(q + dq) - D(q - dq)) / (2 * h)
+                    fds.append(fd)
                     errs.append(float(np.abs(fd - dD[j]).max()))
                 obs["n_dD"] = obs.get("n_dD", 0) + 1
-                if errs[1] > 1e-7 * scale and not errs[1] < 0.35 * errs[0]:
+                # O(h^2) stencil: error(h/2) = |fd(h)-fd(h/2)|/3; accept up to the full difference (3x margin), floor 1e-7 of the scale
+                if errs[1] > 1e-7 * scale and errs[1] > float(np.abs(fds[0] - fds[1]).max()):
                     bad("derivative_dynmat", "dD/dq_%d (%s) differs from the central difference of D(q) by %.3e (h) / %.3e (h/2), scale %.3e at q=%s" % (
                         j, c["lang"], errs[0], errs[1], scale, np.round(q, 4).tolist()), direction=j, **feat)
             # Hermiticity of the derivative (it is symmetrised by construction)
@@ -129,7 +131,10 @@ def run_case(c):
                 f0 = np.array(ph2.get_frequencies(q))
                 fmax = np.abs(f0).max()
                 gaps = np.array([min(abs(f0[i] - f0[k]) for k in range(len(f0)) if k != i) if len(f0) > 1 else fmax for i in range(len(f0))])
-                ok = (gaps > 1e-3 * fmax) & (f0 > 1e-2 * fmax)
+                # non-degenerate ALONG THE WHOLE finite-difference stencil: the gap must exceed the frequency change over the step, else
+                # sorted frequencies swap bands inside the stencil and the difference quotient is not the derivative of one mode
+                hmax = 2e-4
+                ok = (gaps > 1e-3 * fmax) & (gaps > 40 * np.abs(gv).max() * hmax) & (f0 > 1e-2 * fmax)
                 if not ok.any():
                     continue
                 grads = []
@@ -144,7 +149,8 @@ def run_case(c):
                 gs = max(np.abs(gv[ok]).max(), fmax * np.linalg.norm(L, axis=1).max() * 1e-3)
                 obs["n_gv_" + mode] = obs.get("n_gv_" + mode, 0) + 1
                 tol = 1e-6 if mode == "analytic" else 1e-4
-                if e2 > tol * gs and not e2 < 0.35 * e1:
+                est = float(np.abs(grads[0][ok] - grads[1][ok]).max())  # = 3 x the truncation error of the finer stencil
+                if e2 > tol * gs and e2 > est:
                     bad("group_velocity", "group velocity (%s) differs from grad nu by %.3e (h) / %.3e (h/2), scale %.3e at q=%s" % (mode, e1, e2, gs, np.round(q, 4).tolist()),
                         mode=mode, **feat)
         obs["class_" + c["fcclass"]] = 1
